@@ -163,14 +163,18 @@ package wmpt
 // one weighs what the parent claims), and the block lies inside the entry it resolves to.
 //@   ensures err == nil && node is *routingNode && ShapeOK(node.(*routingNode)) ==> RCons(node.(*routingNode))   #rebuilt-branch-is-weight-consistent
 //@   ensures err == nil && node is *valueNode ==> block <= node.(*valueNode).weight   #block-inside-the-entry
+//@   ensures err == nil ==> fresh(node)                                            #rebuilt-node-is-new
 //@   decreases len(persistTrie.Pairs) - *ind
 //@   assigns *ind, heap(routingNode.hash), heap(routingNode.dirty), heap(shortNode.hash), heap(shortNode.dirty), heap(valueNode.hash), heap(valueNode.dirty)
 //@   loop 1 invariant *ind > old(*ind) && *ind <= len(persistTrie.Pairs)         #ind-advanced
 
+// C10: the hash handed back is taken from the node rebuilt from THIS proof: whatever root the verifier
+// held before the call, after a successful call its root is an object created during the call.
 //@ func (*WeightedMerkleTrie).VerifyBlockProof(t, block, proof) returns (hash, value, err)
-//@   props C15
+//@   props C15 C10
 //@   mode wrap
 //@   requires t != nil
+//@   ensures err == nil ==> t.root != nil && fresh(t.root)                        #root-is-the-node-rebuilt-from-this-proof
 
 //@ func (*WeightedMerkleTrie).deserializeTrie(t, pairs, ind) returns (node, err)
 //@   locals (node, err, n, i, child, err, child, err)
